@@ -6,6 +6,8 @@ package main
 import (
 	"time"
 
+	"github.com/LiskHQ/lisk-engine/pkg/verifrt/vclock"
+
 	"verif/conc"
 	"verif/concrun"
 	"verif/vlib"
@@ -25,11 +27,13 @@ func main() {
 	if r.Thorough() {
 		mt = 2
 	}
+	// the wall clock read by message.go (message timestamps) is behind the clock seam and pinned
+	vclock.Set(time.Unix(1_700_000_000, 0))
 	sc := scenarios(mt)
 	concrun.IsRacePass(r, sc)
 	r.Assume("the transport is an in-memory model: every stream hand-off is an asynchronous, schedulable delivery; responses may be duplicated; the real libp2p transport is not explored")
 	r.Assume("a timeout timer may fire at any point of the schedule; 'arrives before the deadline' = the response was handed to the requester's node before any timer fired after the request was delivered")
-	r.Assume("sequential consistency; message IDs are random UUIDs that do not influence control flow")
+	r.Assume("sequential consistency; message IDs are random UUIDs that do not influence control flow; the wall clock read by message.go is pinned (clock seam), so all messages of one execution carry the same timestamp")
 	bound := 2
 	if r.Thorough() {
 		bound = 3
